@@ -436,6 +436,7 @@ func checkR13_2(w *World, r *Report, kt *kindTable) {
 		}
 	}
 	r.floor("whitespace-control passes", len(passes), 1)
+	checkTrimLocality(w, r, passes, helpers)
 
 	// wrappers: a function every path of which (to a return) calls a pass is a pass for rule (c)
 	for changed, round := true, 0; changed && round < 4; round++ {
@@ -661,4 +662,151 @@ func checkR13_3(w *World, r *Report, kt *kindTable) {
 		}
 	}
 	r.Counts["tokenizer-side kind comparisons"] = n
+}
+
+// checkTrimLocality (R13.2): whether a neighbour is trimmed is decided by the kinds of the tokens
+// around position i alone.  Every condition that controls a trim store is a function of the loop
+// index, constants, len(tokens) and fields of tokens[i+c]; a condition that reads loop-carried
+// state (a flag set in an earlier iteration) makes a dash trim or not depending on what came
+// earlier in the template.
+func checkTrimLocality(w *World, r *Report, passes map[*types.Func]bool, helpers map[*types.Func]string) {
+	n := 0
+	for obj := range passes {
+		fn := w.ssaFunc(obj)
+		if fn == nil || len(fn.Blocks) == 0 {
+			continue
+		}
+		var pure func(v ssa.Value, seen map[ssa.Value]bool, depth int) string
+		pure = func(v ssa.Value, seen map[ssa.Value]bool, depth int) string {
+			if seen[v] || depth > 14 {
+				return ""
+			}
+			seen[v] = true
+			switch x := v.(type) {
+			case *ssa.Const, *ssa.Parameter, *ssa.Global:
+				return ""
+			case *ssa.Phi:
+				if x.Comment == "&&" || x.Comment == "||" {
+					for _, e := range x.Edges {
+						if why := pure(e, seen, depth+1); why != "" {
+							return why
+						}
+					}
+					return ""
+				}
+				// the loop index: integer phi of constants and itself +/- constant
+				if bt, ok := x.Type().Underlying().(*types.Basic); ok && bt.Info()&types.IsInteger != 0 {
+					okInd := true
+					for _, e := range x.Edges {
+						if _, isC := e.(*ssa.Const); isC {
+							continue
+						}
+						if bo, isB := e.(*ssa.BinOp); isB && (bo.Op == token.ADD || bo.Op == token.SUB) && bo.X == ssa.Value(x) {
+							if _, isC := bo.Y.(*ssa.Const); isC {
+								continue
+							}
+						}
+						okInd = false
+					}
+					if okInd {
+						return ""
+					}
+				}
+				name := x.Comment
+				if name == "" {
+					name = x.Name()
+				}
+				return "the loop-carried variable " + name
+			case *ssa.BinOp:
+				if why := pure(x.X, seen, depth+1); why != "" {
+					return why
+				}
+				return pure(x.Y, seen, depth+1)
+			case *ssa.UnOp:
+				if al, ok := x.X.(*ssa.Alloc); ok {
+					// a local: pure if every store into it is (token copies), and it is not
+					// written in one iteration and read in another — approximated by: all stores
+					// are loads of tokens[...] elements
+					if al.Referrers() != nil {
+						for _, ref := range *al.Referrers() {
+							if st, ok := ref.(*ssa.Store); ok && st.Addr == al {
+								if why := pure(st.Val, seen, depth+1); why != "" {
+									return why
+								}
+							}
+						}
+					}
+					return ""
+				}
+				return pure(x.X, seen, depth+1)
+			case *ssa.FieldAddr:
+				return pure(x.X, seen, depth+1)
+			case *ssa.Field:
+				return pure(x.X, seen, depth+1)
+			case *ssa.IndexAddr:
+				if why := pure(x.X, seen, depth+1); why != "" {
+					return why
+				}
+				return pure(x.Index, seen, depth+1)
+			case *ssa.Index:
+				if why := pure(x.X, seen, depth+1); why != "" {
+					return why
+				}
+				return pure(x.Index, seen, depth+1)
+			case *ssa.Alloc:
+				return ""
+			case *ssa.Convert:
+				return pure(x.X, seen, depth+1)
+			case *ssa.Extract:
+				return pure(x.Tuple, seen, depth+1)
+			case *ssa.Next:
+				return pure(x.Iter, seen, depth+1)
+			case *ssa.Range:
+				return pure(x.X, seen, depth+1)
+			case *ssa.Call:
+				if b, ok := x.Call.Value.(*ssa.Builtin); ok && (b.Name() == "len" || b.Name() == "cap") {
+					return pure(x.Call.Args[0], seen, depth+1)
+				}
+				// kind predicates and other package functions of the token kind / text
+				if g := x.Call.StaticCallee(); g != nil && g.Pkg != nil && g.Pkg.Pkg.Path() == twigPath && !x.Call.IsInvoke() {
+					for _, a := range x.Call.Args {
+						if why := pure(a, seen, depth+1); why != "" {
+							return why
+						}
+					}
+					return ""
+				}
+				return "the result of " + x.Call.String()
+			}
+			return fmt.Sprintf("a value of kind %T", v)
+		}
+		instrsOf(fn, func(in ssa.Instruction) {
+			st, ok := in.(*ssa.Store)
+			if !ok {
+				return
+			}
+			c, ok := st.Val.(*ssa.Call)
+			if !ok {
+				return
+			}
+			f := calleeFunc(c)
+			if f == nil || helpers[f] == "" {
+				return
+			}
+			n++
+			construct := "trim " + helpers[f] + " is decided by the neighbouring token kinds alone"
+			bad := ""
+			for _, cond := range controllingConds(st) {
+				if why := pure(cond, map[ssa.Value]bool{}, 0); why != "" {
+					bad = why
+				}
+			}
+			if bad == "" {
+				r.ok("R13.2", ssaName(fn), construct, w.posOf(st.Pos()), "every controlling condition reads only tokens[i±c], the index and constants", true)
+			} else {
+				r.bad("R13.2", ssaName(fn), construct, w.posOf(st.Pos()), "whether the dash trims depends on "+bad+": the same dashed tag trims or does not trim depending on what precedes it in the template")
+			}
+		})
+	}
+	r.Counts["trim stores checked for locality"] = n
 }
